@@ -142,11 +142,56 @@ func collDecls(b *strings.Builder, c *Coll) {
 }
 
 type printer struct {
-	p     *Program
-	site  int
-	decls strings.Builder // top-level declarations (functions, methods)
-	pre   strings.Builder // statements before the directive
+	p      *Program
+	site   int
+	decls  strings.Builder // top-level declarations (functions, methods)
+	pre    strings.Builder // statements before the directive
+	poison strings.Builder // Bare programs: assignments run when the first user function is entered
+	nbare  int
 }
+
+// wp prints an argument expression. In a Bare program the expression is bound
+// to a local variable first and the bare identifier is passed; poison (an
+// expression of the same type, "" for none) is assigned to that variable as
+// soon as the first user function is entered.
+func (pr *printer) wp(expr, poison string) string {
+	if !pr.p.Bare {
+		return pr.w(expr)
+	}
+	name := fmt.Sprintf("b%d", pr.nbare)
+	if pr.p.Shadow && pr.nbare < len(bareShadowNames) {
+		name = bareShadowNames[pr.nbare]
+	}
+	pr.nbare++
+	fmt.Fprintf(&pr.pre, "\t%s := %s\n", name, expr)
+	if poison != "" {
+		fmt.Fprintf(&pr.poison, "\t\t%s = %s\n", name, poison)
+	} else {
+		fmt.Fprintf(&pr.poison, "\t\t_ = %s\n", name)
+	}
+	pr.site++
+	return name
+}
+
+func (pr *printer) fnPoisonIf(f *Fn, c *Coll) string {
+	if !pr.p.Bare {
+		return ""
+	}
+	return pr.fnPoison(f, c)
+}
+
+// fnPoison prints the poisoned twin of f: same signature, id + PoisonFn.
+func (pr *printer) fnPoison(f *Fn, c *Coll) string {
+	g := *f
+	g.ID += PoisonFn
+	g.Spell = SpLit
+	params, results, body := pr.fnParts(&g, c)
+	return fmt.Sprintf("func(%s)%s {\n%s\t\t}", params, results, indent(indent(body)))
+}
+
+// bareShadowNames: identifiers of the generated code that user variables of a
+// Bare+Shadow program are named after.
+var bareShadowNames = []string{"parallelInfo", "directiveInfo", "parallelEmitter", "taskEmitter", "recovered", "stacktrace", "job", "run", "fn", "val", "key", "idx", "t", "v", "p", "flow", "parallel", "task2", "task3", "v3", "v4"}
 
 func (pr *printer) w(expr string) string {
 	if !pr.p.Wrap {
@@ -308,7 +353,7 @@ func (p *Program) Source() string {
 	directive := "Flow"
 	if p.Flow != nil {
 		f := p.Flow
-		ctxExpr = pr.w("x.Ctx()")
+		ctxExpr = pr.wp("x.Ctx()", "rt.PoisonCtx(x)")
 		for i, t := range f.Results {
 			fmt.Fprintf(&resDecl, "\tr%d := mkT%d(x.Sentinel(%d))\n", i, t, i)
 			fmt.Fprintf(&post, "\tx.Result(%d, unT%d(r%d))\n", i, t, i)
@@ -328,10 +373,16 @@ func (p *Program) Source() string {
 						if p.Shadow {
 							name := ShadowNames[i%len(ShadowNames)]
 							fmt.Fprintf(&pr.pre, "\t%s := mkT%d(x.Param(%d))\n", name, f.Params[i], i)
+							if p.Bare {
+								fmt.Fprintf(&pr.poison, "\t\t%s = mkT%d(x.Poison(%d))\n", name, f.Params[i], pr.site)
+								pr.site++
+								a = append(a, name)
+								continue
+							}
 							a = append(a, pr.w(name))
 							continue
 						}
-						a = append(a, pr.w(fmt.Sprintf("mkT%d(x.Param(%d))", f.Params[i], i)))
+						a = append(a, pr.wp(fmt.Sprintf("mkT%d(x.Param(%d))", f.Params[i], i), fmt.Sprintf("mkT%d(x.Poison(%d))", f.Params[i], pr.site)))
 					}
 					return "cff.Params(" + strings.Join(a, ", ") + ")"
 				}
@@ -350,20 +401,20 @@ func (p *Program) Source() string {
 			os = append(os, opt{rank(1), func() string {
 				var a []string
 				for i := range f.Results {
-					a = append(a, pr.w(fmt.Sprintf("&r%d", i)))
+					a = append(a, pr.wp(fmt.Sprintf("&r%d", i), fmt.Sprintf("rt.PoisonPtr(x, &r%d)", i)))
 				}
 				return "cff.Results(" + strings.Join(a, ", ") + ")"
 			}})
 		}
 		if f.Concurrency {
-			os = append(os, opt{rank(2), func() string { return "cff.Concurrency(" + pr.w("x.Conc()") + ")" }})
+			os = append(os, opt{rank(2), func() string { return "cff.Concurrency(" + pr.wp("x.Conc()", "") + ")" }})
 		}
 		if f.Instrument {
-			os = append(os, opt{rank(3), func() string { return "cff.InstrumentFlow(" + pr.w(`"flow"`) + ")" }})
+			os = append(os, opt{rank(3), func() string { return "cff.InstrumentFlow(" + pr.wp(`"flow"`, `"POISON"`) + ")" }})
 		}
 		for i, e := range pr.emitterOpts(f.Emitters) {
 			e := e
-			os = append(os, opt{rank(4 + i), func() string { return "cff.WithEmitter(" + pr.w(e) + ")" }})
+			os = append(os, opt{rank(4 + i), func() string { return "cff.WithEmitter(" + pr.wp(e, "x.Emitter(rt.PoisonEmitter)") + ")" }})
 		}
 		for li, ti := range f.Listing {
 			t := &f.Tasks[ti]
@@ -373,7 +424,7 @@ func (p *Program) Source() string {
 	} else {
 		directive = "Parallel"
 		pp := p.Par
-		ctxExpr = pr.w("x.Ctx()")
+		ctxExpr = pr.wp("x.Ctx()", "rt.PoisonCtx(x)")
 		rank := func(i int) int {
 			if i < len(pp.OptOrder) {
 				return pp.OptOrder[i]
@@ -382,17 +433,17 @@ func (p *Program) Source() string {
 		}
 		var os []opt
 		if pp.Concurrency {
-			os = append(os, opt{rank(0), func() string { return "cff.Concurrency(" + pr.w("x.Conc()") + ")" }})
+			os = append(os, opt{rank(0), func() string { return "cff.Concurrency(" + pr.wp("x.Conc()", "") + ")" }})
 		}
 		if pp.COE {
-			os = append(os, opt{rank(1), func() string { return "cff.ContinueOnError(" + pr.w("x.COE()") + ")" }})
+			os = append(os, opt{rank(1), func() string { return "cff.ContinueOnError(" + pr.wp("x.COE()", "") + ")" }})
 		}
 		if pp.Instrument {
-			os = append(os, opt{rank(2), func() string { return "cff.InstrumentParallel(" + pr.w(`"par"`) + ")" }})
+			os = append(os, opt{rank(2), func() string { return "cff.InstrumentParallel(" + pr.wp(`"par"`, `"POISON"`) + ")" }})
 		}
 		for i, e := range pr.emitterOpts(pp.Emitters) {
 			e := e
-			os = append(os, opt{rank(3 + i), func() string { return "cff.WithEmitter(" + pr.w(e) + ")" }})
+			os = append(os, opt{rank(3 + i), func() string { return "cff.WithEmitter(" + pr.wp(e, "x.Emitter(rt.PoisonEmitter)") + ")" }})
 		}
 		for i := range pp.Items {
 			it := &pp.Items[i]
@@ -432,6 +483,9 @@ func (p *Program) Source() string {
 	b.WriteString("\th := &hands{x}\n\t_ = h\n")
 	b.WriteString(resDecl.String())
 	b.WriteString(pr.pre.String())
+	if p.Bare {
+		b.WriteString("\tx.SetPoison(func() {\n" + pr.poison.String() + "\t})\n")
+	}
 	fmt.Fprintf(&b, "\trerr = cff.%s(%s,\n", directive, ctxExpr)
 	for _, o := range opts {
 		b.WriteString(indent(indent(o + ",")))
@@ -449,7 +503,7 @@ func (p *Program) Source() string {
 
 func (pr *printer) taskOpt(t *Task) string {
 	// The function expression comes first in the source, then the options.
-	fe := pr.w(pr.fnExpr(&t.Fn, nil))
+	fe := pr.wp(pr.fnExpr(&t.Fn, nil), pr.fnPoisonIf(&t.Fn, nil))
 	type to struct {
 		rank int
 		gen  func() string
@@ -462,19 +516,19 @@ func (pr *printer) taskOpt(t *Task) string {
 		return i
 	}
 	if t.Pred != nil {
-		tos = append(tos, to{rk(0), func() string { return "cff.Predicate(" + pr.w(pr.fnExpr(t.Pred, nil)) + ")" }})
+		tos = append(tos, to{rk(0), func() string { return "cff.Predicate(" + pr.wp(pr.fnExpr(t.Pred, nil), pr.fnPoisonIf(t.Pred, nil)) + ")" }})
 	}
 	if t.Fallback {
 		tos = append(tos, to{rk(1), func() string {
 			var a []string
 			for i, o := range t.Fn.Outs {
-				a = append(a, pr.w(fmt.Sprintf("mkT%d(x.FB(%d, %d))", o, t.Fn.ID, i)))
+				a = append(a, pr.wp(fmt.Sprintf("mkT%d(x.FB(%d, %d))", o, t.Fn.ID, i), fmt.Sprintf("mkT%d(x.Poison(%d))", o, pr.site)))
 			}
 			return "cff.FallbackWith(" + strings.Join(a, ", ") + ")"
 		}})
 	}
 	if t.Instrument {
-		tos = append(tos, to{rk(2), func() string { return "cff.Instrument(" + pr.w(fmt.Sprintf(`"f%d"`, t.Fn.ID)) + ")" }})
+		tos = append(tos, to{rk(2), func() string { return "cff.Instrument(" + pr.wp(fmt.Sprintf(`"f%d"`, t.Fn.ID), `"POISON"`) + ")" }})
 	}
 	if t.Invoke {
 		tos = append(tos, to{rk(3), func() string { return "cff.Invoke(true)" }})
@@ -490,15 +544,15 @@ func (pr *printer) taskOpt(t *Task) string {
 func (pr *printer) parOpt(it *PItem) string {
 	switch it.Kind {
 	case "task":
-		parts := []string{pr.w(pr.fnExpr(&it.Fns[0], nil))}
+		parts := []string{pr.wp(pr.fnExpr(&it.Fns[0], nil), pr.fnPoisonIf(&it.Fns[0], nil))}
 		if it.Instrument {
-			parts = append(parts, "cff.Instrument("+pr.w(fmt.Sprintf(`"f%d"`, it.Fns[0].ID))+")")
+			parts = append(parts, "cff.Instrument("+pr.wp(fmt.Sprintf(`"f%d"`, it.Fns[0].ID), `"POISON"`)+")")
 		}
 		return "cff.Task(\n" + indent(strings.Join(parts, ",\n")+",") + ")"
 	case "tasks":
 		var parts []string
 		for i := range it.Fns {
-			parts = append(parts, pr.w(pr.fnExpr(&it.Fns[i], nil)))
+			parts = append(parts, pr.wp(pr.fnExpr(&it.Fns[i], nil), pr.fnPoisonIf(&it.Fns[i], nil)))
 		}
 		return "cff.Tasks(\n" + indent(strings.Join(parts, ",\n")+",") + ")"
 	}
@@ -507,9 +561,9 @@ func (pr *printer) parOpt(it *PItem) string {
 	if c.IsMap {
 		name, end = "Map", "MapEnd"
 	}
-	parts := []string{pr.w(pr.fnExpr(&c.Fn, c)), pr.w(fmt.Sprintf("mkC%d(x.Coll(%d))", c.Slot, c.Slot))}
+	parts := []string{pr.wp(pr.fnExpr(&c.Fn, c), pr.fnPoisonIf(&c.Fn, c)), pr.wp(fmt.Sprintf("mkC%d(x.Coll(%d))", c.Slot, c.Slot), fmt.Sprintf("mkC%d(x.PoisonColl(%d))", c.Slot, pr.site))}
 	if c.End != nil {
-		parts = append(parts, "cff."+end+"("+pr.w(pr.fnExpr(c.End, nil))+")")
+		parts = append(parts, "cff."+end+"("+pr.wp(pr.fnExpr(c.End, nil), pr.fnPoisonIf(c.End, nil))+")")
 	}
 	return "cff." + name + "(\n" + indent(strings.Join(parts, ",\n")+",") + ")"
 }
